@@ -5,6 +5,8 @@
 //! names, all of its subterms inserted and their handles kept, a random subset of 16 rules (binders, commutativity,
 //! rules that make slots redundant, native substitution), <= 3 rounds of apply_rewrites, <= 200 nodes; plus 8 hand-written
 //! union histories.  After every round:
+//! Also 200 (deep: 2000) union histories: 6 terms (some are slot-permuted copies of earlier ones, or two such copies under
+//! one node), 8 unions between them, observed after every union.
 //!  `ematch_all` / `multi_ematch` (C05): 12 patterns and 4 multi-patterns; every returned substitution binds every
 //!    pattern variable, the instantiated pattern is found by `lookup` alone (nothing inserted), every multi-pattern
 //!    equation holds between the bound classes, and matching leaves node count / classes / slots untouched;
@@ -96,11 +98,12 @@ fn observe(what: &str, h: &mut Hist, desc: &str) -> Result<(), String> {
     if what == "EGraph::find_applied_id" {
         for (a, b) in &h.equal_pairs { if !eg.eq(&h.handles[*a], &h.handles[*b]) { return Err(format!("C13:history.equalities-kept {}: {} and {} were equal and are not any more", desc, h.subs[*a], h.subs[*b])); } }
         for a in 0..h.handles.len() { for b in (a + 1)..h.handles.len() { if eg.eq(&h.handles[a], &h.handles[b]) && !h.equal_pairs.contains(&(a, b)) { h.equal_pairs.push((a, b)); } } }
+        let extractor = Extractor::<KL, AstSize>::new(eg, AstSize);
         for (k, hd) in h.handles.iter().enumerate() {
             let f = eg.find_applied_id(hd);
             if f.slots().len() > h.slot_counts[k] { return Err(format!("C13:history.slots-shrink {}: the class of {} has more slots than before", desc, h.subs[k])); }
             h.slot_counts[k] = f.slots().len();
-            let ex = ast_size_extract(hd, eg);
+            let ex = extractor.extract(hd, eg);
             match lookup_rec_expr(&ex, eg) {
                 None => return Err(format!("C13:history.handles-usable {}: the term {} extracted from the old handle of {} is not in the e-graph", desc, ex, h.subs[k])),
                 Some(b) => if !eg.eq(hd, &b) { return Err(format!("C13:history.handles-usable {}: the term {} extracted from the old handle of {} denotes {:?}, not {:?}", desc, ex, h.subs[k], b, hd)); }
@@ -184,6 +187,15 @@ fn hand_written() -> Vec<(Vec<&'static str>, Vec<(usize, usize)>)> {
         (vec!["(app (lam $1 (var $1)) (var $2))", "(var $2)", "(app (lam $3 (var $3)) one)", "one"], vec![(0, 1), (2, 3)]),
         (vec!["(add (var $1) (var $2))", "(add (var $2) (var $1))", "(add (var $1) zero)", "(var $1)"], vec![(0, 1), (2, 3)]),
         (vec!["(mul (var $1) zero)", "zero", "(mul (var $2) (var $3))", "(mul (var $3) (var $2))"], vec![(0, 1), (2, 3)]),
+        // a symmetric class loses a slot outside the orbit of its symmetry: the symmetry must survive
+        (vec!["(f3 (var $1) (var $2) (var $3))", "(f3 (var $2) (var $1) (var $3))", "(f3 (var $1) (var $2) zero)"], vec![(0, 1), (0, 2)]),
+        // a symmetric class that is then merged INTO a bigger class (it is the deprecated side of move_to)
+        (vec!["(mul (var $1) (var $2))", "(mul (var $2) (var $1))", "(g (g (add (var $1) (var $2))))", "(add (var $1) (var $2))"], vec![(0, 1), (0, 3)]),
+        (vec!["(f3 (var $1) (var $2) (var $3))", "(f3 (var $2) (var $3) (var $1))", "(g (app (var $1) (app (var $2) (var $3))))", "(sub (app (var $1) (app (var $2) (var $3))) one)", "(app (var $1) (app (var $2) (var $3)))"], vec![(0, 1), (0, 4)]),
+        (vec!["(f3 (var $1) (var $2) (var $3))", "(f3 (var $2) (var $1) (var $3))", "(g (g (f3 (var $1) (var $2) (var $3))))", "(add (var $1) (add (var $2) (var $3)))", "(g (add (var $1) (add (var $2) (var $3))))"], vec![(0, 1), (3, 0)]),
+        // the same class under two different argument orders below one node (non-linear patterns must not confuse them)
+        (vec!["(sub (mul (var $1) (var $2)) (mul (var $2) (var $1)))", "(add (f3 (var $1) (var $2) (var $3)) (f3 (var $2) (var $1) (var $3)))", "(f3 (mul (var $1) (var $2)) (mul (var $2) (var $1)) (var $1))"], vec![(0, 0)]),
+        (vec!["(lam $1 (sub (mul (var $1) (var $2)) (mul (var $2) (var $1))))", "(add (mul (var $1) (var $2)) (mul (var $2) (var $1)))", "(sub (app (var $1) (var $2)) (app (var $2) (var $1)))"], vec![(1, 1)]),
     ]
 }
 
@@ -223,6 +235,41 @@ pub fn run(only: &[String]) -> Vec<String> {
                 if let Err(e) = observe(what, &mut h, &desc) { report(e, &mut fails); break; }
             }
         }
+        // union histories: 6 terms, some of them slot-permuted copies of earlier ones or pairs of such copies under one
+        // node, 8 unions between the top-level handles
+        let useeds: u64 = if deep { 2000 } else { 200 };
+        for seed in 1..=useeds {
+            let mut r = Rng(seed.wrapping_mul(0xD1B54A32D192ED03).wrapping_add(7));
+            let mut adds: Vec<String> = Vec::new();
+            for _ in 0..6 {
+                let k = r.next(6);
+                let t = if k == 0 && !adds.is_empty() { permute_slots(&adds[r.next(adds.len() as u64) as usize], &mut r) }
+                    else if k == 1 { let a = term(&mut r, 1, 3); let b = permute_slots(&a, &mut r); let op = ["sub", "add", "mul", "app"][r.next(4) as usize]; format!("({} {} {})", op, a, b) }
+                    else { term(&mut r, 2, 3) };
+                adds.push(t);
+            }
+            let unions: Vec<(usize, usize)> = (0..8).map(|_| (r.next(6) as usize, r.next(6) as usize)).collect();
+            let desc = format!("history (seed {}) add {:?}; union {:?}", seed, adds, unions);
+            let terms: Vec<RecExpr<KL>> = adds.iter().map(|t| RecExpr::<KL>::parse(t).unwrap()).collect();
+            let mut h = start(&terms);
+            let mut tops = Vec::new(); { let mut k = 0; for t in &terms { let mut v = Vec::new(); subterms(t, &mut v); k += v.len(); tops.push(k - 1); } }
+            if let Err(e) = observe(what, &mut h, &desc) { report(e, &mut fails); continue; }
+            for (a, b) in &unions {
+                verif_case(format!("{}: {} at union {} ~ {}", what, desc, a, b));
+                let (x, y) = (h.handles[tops[*a]].clone(), h.handles[tops[*b]].clone());
+                h.eg.union(&x, &y);
+                if let Err(e) = observe(what, &mut h, &desc) { report(e, &mut fails); break; }
+            }
+        }
     }
     fails
+}
+
+/// the term with its slot names $1..$3 permuted (a different invocation of the same class)
+fn permute_slots(t: &str, r: &mut Rng) -> String {
+    let perms = [[2, 1, 3], [3, 2, 1], [1, 3, 2], [2, 3, 1], [3, 1, 2]];
+    let p = perms[r.next(5) as usize];
+    let mut s = t.replace("$1", "$A").replace("$2", "$B").replace("$3", "$C");
+    s = s.replace("$A", &format!("${}", p[0])).replace("$B", &format!("${}", p[1])).replace("$C", &format!("${}", p[2]));
+    s
 }
